@@ -393,6 +393,7 @@ def probe_case(trec, hist):
 def expand(arg):
     """worker: expand a chunk of frontier states"""
     trec, hists, menu = arg
+    hists = [[tup(e) for e in h] for h in hists]
     t = catalog.toy_from_case(trec)
     sh = Shard()
     out = []
@@ -416,6 +417,7 @@ def expand(arg):
 
 def probe_states(arg):
     trec, hists = arg
+    hists = [[tup(e) for e in h] for h in hists]
     sh = Shard()
     for hist in hists:
         sh.n += 1
@@ -452,13 +454,12 @@ def main(ctx):
     t = toy()
     trec = t.rec()
     menu = ctx.pick(1, 2)
-    max_depth = ctx.pick(4, 6)
+    max_depth = ctx.pick(3, 6)
     max_states = ctx.pick(40000, 400000)
     budget = ctx.pick(55, 1500)
     rep = common.Report()
     seen = {}
-    init = build(t, [])
-    seen[canon(init)] = []
+    seen["<initial>"] = []
     frontier = [[]]
     states = 1
     transitions = 0
@@ -467,7 +468,9 @@ def main(ctx):
     capped = None
     sample_hist = []
     t0 = time.time()
-    pool = multiprocessing.get_context("fork").Pool(ctx.jobs)
+    # a fresh forked process per chunk: outcomes depend on the chunk only
+    pool = multiprocessing.get_context("fork").Pool(ctx.jobs,
+                                                    maxtasksperchild=1)
     try:
         # probe the initial state
         sh = probe_states((trec, [[]]))
@@ -541,10 +544,19 @@ def main(ctx):
     return rep
 
 
+def expand_shard(arg):
+    """expand() without the successor list (shard-level replay entry)"""
+    sh = expand(arg)
+    sh.extra.pop("succ", None)
+    return sh
+
+
 def _expand_packed(arg):
     common.start_watchdog()
     sh = expand(arg)
     succ = sh.extra.pop("succ")
+    for v in sh.viol:
+        v["shard"] = ["mc.checks.c19", "expand_shard", arg]
     common._CURRENT[0] = None
     return sh.pack(), succ
 
@@ -552,5 +564,7 @@ def _expand_packed(arg):
 def _probe_packed(arg):
     common.start_watchdog()
     sh = probe_states(arg)
+    for v in sh.viol:
+        v["shard"] = ["mc.checks.c19", "probe_states", arg]
     common._CURRENT[0] = None
     return sh.pack()
